@@ -31,11 +31,12 @@ impl Prop for C04Prop {
             large_pct: 25,
             n_small: (0, 10),
             n_large: (21, 60),
-            regimes: vec![WeightRegime::AllNan, WeightRegime::Dyadic, WeightRegime::Dyadic, WeightRegime::SmallInt, WeightRegime::ZeroDyadic, WeightRegime::Nasty],
+            regimes: vec![WeightRegime::AllNan, WeightRegime::Dyadic, WeightRegime::Dyadic, WeightRegime::SmallInt, WeightRegime::ZeroDyadic, WeightRegime::Nasty, WeightRegime::Tiny, WeightRegime::NearEqual, WeightRegime::MixedScale],
             kinds: AlgoGen::all_kinds(),
             shapes: None,
             lifecycle_pct: 30,
             keyings: 1,
+            boundary_per_mille: 0,
         }
         .gen("C04", seed, idx)
     }
@@ -48,6 +49,9 @@ impl Prop for C04Prop {
         let n = snap.n();
         let budget = rt::budget(n, snap.edges.len());
         let mut rng = Rng::new(case.seed, "c04.queries");
+        if case.seed % 4 == 0 {
+            algo::poison_prelude(env, cx);
+        }
         let mut modes = vec![false];
         if !snap.edges.is_empty() && snap.weighted() && algo::non_negative(snap) {
             modes.push(true);
